@@ -34,7 +34,7 @@ pub fn families() -> Vec<Family> {
 }
 
 /// Send `reqs` pipelined on one raw connection and collect the responses.
-pub fn pipeline(addr: std::net::SocketAddr, reqs: &[crate::families::c03_common::Req], expect_n: usize) -> Option<Vec<Frame>> {
+pub fn pipeline(addr: std::net::SocketAddr, reqs: &[crate::families::c03_common::Req], expect_n: usize, pace_ms: Option<u64>) -> Option<Vec<Frame>> {
     let s = TcpStream::connect(addr).ok()?;
     let mut w = s.try_clone().ok()?;
     let frames: Vec<Vec<u8>> = reqs.iter().map(|r| r.frame().encode()).collect();
@@ -43,7 +43,9 @@ pub fn pipeline(addr: std::net::SocketAddr, reqs: &[crate::families::c03_common:
             if write_all_retry(&mut w, &f).is_err() {
                 return;
             }
-            if simkernel::choose(4) == 0 {
+            if let Some(ms) = pace_ms {
+                thread::sleep(Duration::from_millis(ms));
+            } else if simkernel::choose(4) == 0 {
                 thread::sleep(Duration::from_micros(simkernel::choose(300) as u64));
             }
         }
@@ -82,15 +84,22 @@ fn c03_server(case: &Case) {
     let listener = TcpListener::bind("127.0.0.1:0").unwrap();
     let addr = listener.local_addr().unwrap();
     // configured-but-generous timeouts: the timeout plumbing is in the path, nothing may fire
-    let (rt, wt) = (pick(&[None, Some(Duration::from_secs(3_600))]), pick(&[None, Some(Duration::from_secs(3_600))]));
+    let (mut rt, wt) = (pick(&[None, Some(Duration::from_secs(3_600))]), pick(&[None, Some(Duration::from_secs(3_600))]));
+    // "paced": a short read timeout (50 ms) on a connection that is never idle that long -
+    // one request every 10 ms on an instant network - but stays in use for longer than that
+    let paced = simkernel::choose(5) == 0;
+    if paced {
+        rt = Some(Duration::from_millis(50));
+        net::set_config(simkernel::net::NetConfig { capacity: 1 << 20, lat_min: 0, lat_max: 0, max_segment: 0 });
+    }
     let server = thread::spawn(move || {
         let _ = Server::new(router).read_timeout(rt).write_timeout(wt).serve(listener);
     });
-    let mut reqs = gen_requests(draw_len());
+    let mut reqs = gen_requests(if paced { range(7, 16) as usize } else { draw_len() });
     sanitize(&mut reqs);
     let expect_n = reqs.iter().filter(|r| model(r).ec.is_some()).count();
     case.sample(json!({"middlewares": n_mw, "requests": reqs.iter().map(|r| format!("{}{} v{} q{} b{} {}B", if r.notify {"notify "} else {""}, r.what, r.version, r.qfmt, r.bfmt, r.body.len())).collect::<Vec<_>>()}));
-    let Some(responses) = pipeline(addr, &reqs, expect_n) else {
+    let Some(responses) = pipeline(addr, &reqs, expect_n, paced.then_some(10)) else {
         case.harness_error("connect failed");
         return;
     };
@@ -137,7 +146,7 @@ fn c05_server(case: &Case) {
     let writer = thread::spawn(move || {
         for (i, len) in sz.iter().enumerate() {
             let id = i as u64 + 1;
-            let f = Frame::new(id, b"/custom/plain", &pattern(id, *len));
+            let f = Frame::new(id, if simkernel::choose(3) == 0 { &b"/custom/ownecho"[..] } else { &b"/custom/plain"[..] }, &pattern(id, *len));
             if write_all_retry(&mut w, &f.encode()).is_err() {
                 return;
             }
